@@ -433,4 +433,22 @@ def extra_checks(ctx, cases, impl_lines, model_lines):
         res.append(("output differs from fit(min,max,fill,align) computed directly from the property text",
                     {"case_line": vc.show(cases[i]), "case_description": describe(cases[i]),
                      "impl": vc.jsonable(vc.parse(impl_lines[i])), "expected": want}))
-    return res
+    if res:
+        return res
+    # width specs on the OTHER formatters (dates, highlight / debug / release groups, MDC, ...), under the time zones
+    # and colour environments of C09's processes: borrowed from C09 (its cases, harness, model and judge)
+    from gen import xcheck
+    from gen import patcommon as pc
+
+    def spec_on_date_or_group(c):
+        try:
+            if not c[5]:
+                return False
+            for n in pc.walk(c[5][0]):
+                if n[0] == 2 and n[3][0] and pc.uncp(n[1]) in ("d", "date", "h", "highlight", "D", "debug", "R", "release", "X", "mdc"):
+                    return True
+            return False
+        except Exception:
+            return False
+    return xcheck.borrow(ctx, "C09", "a width spec on a date / group / MDC formatter", spec_on_date_or_group, n=900)
+
